@@ -7,7 +7,8 @@ Local Open Scope nat_scope.
 
 Inductive sop := SSend (m : list byte) | SPart (m : list byte) | SFin | SWire (n : nat) | SRecv | SDrain
   | SPeek (n : nat) (dst : bool)    (* mpt_queue_peek on the reader: no effect on what is delivered *)
-  | SRaw (bytes : list byte).      (* arbitrary bytes put into the reader ring (C03: malformed input) *)
+  | SRaw (bytes : list byte)       (* arbitrary bytes put into the reader ring (C03: malformed input) *)
+  | SOpen (blk : list byte).      (* an open block [code; data] placed in the writer ring by a raw push (it may straddle the ring end) *)
 
 Record spec_st := mkss { sent : list (list byte); cur : list byte; open_ : bool }.
 
@@ -17,6 +18,7 @@ Definition sspec_step (s : spec_st) (o : sop) : spec_st :=
   | SSend m => mkss (sent s ++ [cur s ++ m]) [] false
   | SPart m => match m with [] => s | _ => mkss (sent s) (cur s ++ m) true end
   | SFin => mkss (sent s ++ [cur s]) [] false
+  | SOpen blk => match tl blk with [] => s | m => mkss (sent s) (cur s ++ m) true end
   | _ => s
   end.
 
